@@ -243,8 +243,13 @@ impl<'a, Input: InputIndexer> MatchAttempter<'a, Input> {
     ) -> Option<(Input::Position, Input::Position)> {
         match re.insns.iat(ip + 1) {
             &Insn::Char(c) => {
-                let c = <<Input as InputIndexer>::Element as ElementType>::try_from(c)?;
-                Self::run_scm_loop_impl(input, pos, min, max, dir, scm::Char { c })
+                match <<Input as InputIndexer>::Element as ElementType>::try_from(c) {
+                    Some(c) => Self::run_scm_loop_impl(input, pos, min, max, dir, scm::Char { c }),
+                    // The char is not representable in this input, so it never matches:
+                    // the loop succeeds with zero iterations if that is allowed.
+                    None if min == 0 => Some((pos, pos)),
+                    None => None,
+                }
             }
             &Insn::Bracket(idx) => {
                 let bc = &re.brackets[idx];
@@ -316,8 +321,11 @@ impl<'a, Input: InputIndexer> MatchAttempter<'a, Input> {
     ) -> Option<Input::Position> {
         let result = match re.insns.iat(ip + 1) {
             &Insn::Char(c) => {
-                let c = <<Input as InputIndexer>::Element as ElementType>::try_from(c)?;
-                Self::compute_max_pos(input, pos, limit, dir, scm::Char { c })
+                match <<Input as InputIndexer>::Element as ElementType>::try_from(c) {
+                    Some(c) => Self::compute_max_pos(input, pos, limit, dir, scm::Char { c }),
+                    // Not representable in this input: no further iterations match.
+                    None => pos,
+                }
             }
             &Insn::Bracket(idx) => {
                 let bc = &re.brackets[idx];
